@@ -91,7 +91,13 @@ def history(rng, big=True):
             pos = 0
             continue
         r = rng.random()
-        if r < 0.32 and "w" in mode:
+        if "w" not in mode and r < 0.15:
+            # a handle without write access: write and truncate are refused and change nothing (C12_readonly_handle_never_writes)
+            if rng.random() < 0.5:
+                call("write 0 %d %d" % (rng.randrange(1, 1 << 20), rng.choice([1, bs, 3 * bs])), kind="write", n=1, refused=True)
+            else:
+                call("trunc 0 %d" % rng.choice([0, size // 2, size + bs]), kind="trunc", t=0, refused=True)
+        elif r < 0.32 and "w" in mode:
             # write: at the end (growing) or inside
             if rng.random() < 0.6:
                 if pos != size:
